@@ -209,7 +209,7 @@ def gen_fiber(rng, uid, *, length=None, whole_km=False, allow_none_con=True, max
 
 def gen_edfa(rng, uid, *, settings=None, varieties=None, power_mode=True):
     """User-placed amplifier with full / partial / no settings."""
-    settings = settings or pick(rng, ['none', 'none', 'variety', 'partial', 'full', 'list'])
+    settings = settings or pick(rng, ['none', 'none', 'variety', 'partial', 'full', 'list', 'auto-full'])
     varieties = varieties or ['std_medium_gain', 'std_low_gain', 'std_high_gain', 'std_fixed_gain',
                               'high_detail_model_example', 'operator_model_example']
     el = {'uid': uid, 'type': 'Edfa', 'type_variety': '', 'metadata': _loc(0, 0),
@@ -240,6 +240,11 @@ def gen_edfa(rng, uid, *, settings=None, varieties=None, power_mode=True):
                              'out_voa': pick(rng, [0, 0, 1.0, 2.5])}
         if rng.random() < 0.2:
             el['operational']['in_voa'] = pick(rng, [0, 0.5, 1.0])
+    elif settings == 'auto-full':
+        # every operational value stated, the model left to auto-design
+        el['operational'] = {'gain_target': pick(rng, [15.0, 20.0, 25.0, 33.0]), 'delta_p': pick(rng, [0, 1.0, None]),
+                             'tilt_target': pick(rng, [0, 0, -1.0]), 'out_voa': pick(rng, [0, 1.0]),
+                             'in_voa': pick(rng, [0, 1.0, 2.0])}
     el['_settings'] = settings
     return el
 
